@@ -117,6 +117,7 @@ pub fn run_check(ctx: &Ctx) -> Outcome {
             check_e1(ctx, Prop::C07, &mut out, 12000, 250000);
             check_e2(ctx, Prop::C07, &[Kind::Seg], &mut out);
             check_vtype(ctx, Kind::Seg, &mut out, 3000, 60000);
+            check_ctor_caps_for(ctx, &mut out, "C07");
         }
         "C08" => {
             check_e1(ctx, Prop::C08, &mut out, 12000, 250000);
@@ -171,12 +172,18 @@ pub fn replay(prop: &str, engine: &str, case: &Value) -> Result<Option<Violation
         "ctorcaps" | "quotagrid" => {
             let ctx = Ctx { id: prop.to_string(), tier: Tier::Quick, seed: 1, verif_dir: std::env::var("VERIF_DIR").unwrap_or_else(|_| "/verif".into()), known: Default::default(), workers: 1, scale: 1.0 };
             let mut o = Outcome::default();
+            let pid: &'static str = match prop {
+                "C06" => "C06",
+                "C07" => "C07",
+                "C08" => "C08",
+                _ => "C01",
+            };
             if engine == "ctorcaps" {
-                check_ctor_caps_for(&ctx, &mut o, if prop == "C06" { "C06" } else { "C01" });
+                check_ctor_caps_for(&ctx, &mut o, pid);
             } else {
-                check_2q_quota_grid_for(&ctx, &mut o, if prop == "C01" { "C01" } else { "C08" });
+                check_2q_quota_grid_for(&ctx, &mut o, pid);
             }
-            Ok(o.violations.first().map(|(_, m)| Violation { prop: if prop == "C06" { "C06" } else if engine == "ctorcaps" || prop == "C01" { "C01" } else { "C08" }, step: 0, msg: m.clone(), sig: format!("ctor/-/{}", engine) }))
+            Ok(o.violations.first().map(|(_, m)| Violation { prop: pid, step: 0, msg: m.clone(), sig: format!("ctor/-/{}", engine) }))
         }
         "putresult" => {
             let ctx = Ctx { id: "C12".into(), tier: Tier::Quick, seed: 1, verif_dir: std::env::var("VERIF_DIR").unwrap_or_else(|_| "/verif".into()), known: Default::default(), workers: 1, scale: 1.0 };
